@@ -3,6 +3,7 @@
 #   determinism  the proof demanded before any batch is believed: N seeds per property, each scenario executed twice in
 #                different worker pools (16 and 4 workers) and under a different PYTHONHASHSEED in a fresh interpreter;
 #                all trace hashes and violation signatures must be pairwise identical.
+#   tsan-os      cross-check of the C16 schedule search against unserialised, OS-scheduled TSan runs (never a VIOLATION)
 import importlib
 import json
 import multiprocessing as mp
@@ -73,6 +74,61 @@ def determinism(mods, n, seed):
     return 2 if bad else 0
 
 
+def _tsan_os_one(job):
+    seed, i, scratch = job
+    from .props import c16
+    from . import gen
+    from .props.base import STD, exec_args, plan_of, input_args
+    prop = c16.PROP
+    scn = prop.generate(mix(seed, prop.ID, i), "quick", i)
+    wd = os.path.join(scratch, "os%d" % i)
+    tree_dir = os.path.join(wd, "tree")
+    os.makedirs(tree_dir)
+    core.write_tree(tree_dir, gen.join_tree(scn["tree"]))
+    oargs = gen.flatten_opts(scn.get("opts", {})) + list(scn.get("suppr", []))
+    keys = {"os": set(), "sim": set()}
+    for mode in ("os", "sim"):
+        for k, run in enumerate(scn["subjects"]):
+            b = []
+            if scn.get("bd"):
+                d = "bd_%s%d" % (mode, k)
+                os.makedirs(os.path.join(wd, d))
+                b = ["--cppcheck-build-dir=../" + d]
+            std = [a for a in STD if a != "-q"] if "--report-progress" in scn.get("opts", {}) else STD
+            args = std + oargs + b + exec_args(run) + input_args(scn, scn["units"], tree_dir, wd, "cdb")
+            r = core.run_sim("tsan", tree_dir, args, plan=plan_of(run) if mode == "sim" else None, roots=[b[0].split("=", 1)[1]] if b and mode == "sim" else (),
+                             workdir=wd, tag="%s%d" % (mode, k), timeout=300)
+            for kind, key in c16.tsan_reports(r.stderr):
+                keys[mode].add(key)
+    core.rmtree(wd)
+    return (i, sorted(keys["os"]), sorted(keys["sim"]))
+
+
+def tsan_os(n, seed):
+    """Cross-check of the schedule search (DESIGN.md 6.2): every C16 scenario is also executed with the scheduler off - real,
+    OS-scheduled threads under ThreadSanitizer. A race reported there that no seeded, serialised run of the same scenarios
+    reports means the schedule search has a gap. This is a self-test of the machinery (exit 2), never a VIOLATION: an
+    OS-scheduled report does not replay."""
+    core.build(["tsan"])
+    scratch = os.path.join(core.scratch_root(), "tsanos")
+    os.makedirs(scratch, exist_ok=True)
+    with mp.get_context("fork").Pool(8) as pool:
+        res = pool.map(_tsan_os_one, [(seed, i, scratch) for i in range(n)], chunksize=1)
+    core.rmtree(scratch)
+    try:
+        os.rmdir(core.scratch_root())
+    except OSError:
+        pass
+    os_keys = set(k for _i, a, _b in res for k in a)
+    sim_keys = set(k for _i, _a, b in res for k in b)
+    print("tsan-os: %d scenarios; races reported with OS-scheduled threads: %d distinct; under the seeded scheduler: %d distinct" % (n, len(os_keys), len(sim_keys)))
+    for k in sorted(os_keys - sim_keys):
+        print("  GAP (only OS-scheduled): %s" % k)
+    for k in sorted(sim_keys - os_keys):
+        print("  only under the seeded scheduler: %s" % k)
+    return 2 if os_keys - sim_keys else 0
+
+
 if __name__ == "__main__":
     cmd = sys.argv[1] if len(sys.argv) > 1 else "smoke"
     if cmd == "smoke":
@@ -80,6 +136,8 @@ if __name__ == "__main__":
     if cmd == "fingerprints":
         print(json.dumps(fingerprints(sys.argv[2].split(","), int(sys.argv[3]), int(sys.argv[4]), 8)))
         sys.exit(0)
+    if cmd == "tsan-os":
+        sys.exit(tsan_os(int(sys.argv[2]) if len(sys.argv) > 2 else 60, int(sys.argv[3]) if len(sys.argv) > 3 else 1))
     if cmd == "determinism":
         mods = sys.argv[2].split(",") if len(sys.argv) > 2 and sys.argv[2] != "all" else ALL
         sys.exit(determinism(mods, int(sys.argv[3]) if len(sys.argv) > 3 else 40, int(sys.argv[4]) if len(sys.argv) > 4 else 11))
